@@ -294,9 +294,8 @@ def splice(template_path, repo_root, canary=False):
             info.report = body.report
             info.lost_hints = list(body.lost_hints)
             info.src_first_line = body.first_line
-            if canary and not info.known:
-                add_false_ensures(out, h)
             blines = text.split("\n")
+            header_copy = list(out[h:])
             first = len(out) + 1
             for k, bl in enumerate(blines):
                 emit(bl)
@@ -304,6 +303,21 @@ def splice(template_path, repo_root, canary=False):
                     info.linemap[len(out)] = linemap[k]
             info.body_lines = (first, len(out))
             info.end = len(out)
+            if canary and not info.known:
+                # vacuity canary: a renamed copy of the function that additionally ensures `false`.
+                # The original stays, so callers are still checked against the original contract
+                # (a canary on the original would make every caller vacuous).
+                header_copy[0] = re.sub(r"\bfn\s+" + tname + r"\b", "fn " + tname + "__canary", header_copy[0], count=1)
+                cstart = len(out) + 1
+                for hl in header_copy:
+                    emit(hl)
+                add_false_ensures(out, cstart - 1)
+                for bl in blines:
+                    emit(bl)
+                info.start = cstart
+                info.header_start = cstart
+                info.end = len(out)
+                info.linemap = {}
             fns.append(info)
             pending_tag = None
             continue
